@@ -104,6 +104,15 @@ def gen_unary(rng, fmt, prog, n, stride=None):
             b = t + d
             if 0 <= b <= inf:
                 pts += [b, b | sign]
+        # geometric approach to the threshold from both sides: pattern offsets (1 + j/16)·2^sh, i.e. relative distances from one ulp to
+        # about a binade — cancellation bands such as 1 - x^2 near |x| = 1 sit at relative distance 1e-4..1e-3, far outside +-64 ULP and
+        # too narrow for the stride (seeded change C02_3)
+        for sh in range(0, p + 2):
+            for j in range(16):
+                d = ((16 + j) << sh) >> 4
+                for b in (t - d, t + d):
+                    if 0 <= b <= inf:
+                        pts += [b, b | sign]
     return [b for b in pts if not (b & ~sign) > inf]
 
 
@@ -132,7 +141,12 @@ def work(task):
         for _ in range(n):
             r = rng.random()
             a = rng.randrange(0, inf)
-            if r < 0.4:
+            if r < 0.12:  # both subnormal (log-uniform magnitudes below the smallest normal), or one subnormal and one tiny normal
+                a = max(1, rng.randrange(1, 1 << (p - 1)) >> rng.randrange(0, p - 1))
+                b = max(1, rng.randrange(1, 1 << (p - 1)) >> rng.randrange(0, p - 1)) if rng.random() < 0.75 else rng.randrange(1, 4 << (p - 1))
+                if rng.random() < 0.5:
+                    a, b = b, a
+            elif r < 0.4:
                 b = rng.randrange(0, inf)
             elif r < 0.7:  # nearby exponents
                 b = max(0, min(inf - 1, a + rng.randrange(-(4 << (p - 1)), 4 << (p - 1))))
